@@ -37,6 +37,7 @@ ASSUMPTIONS = [
     "a field value 'changes' when it is replaced by another object that is not an equal value of the same type; node-valued fields must keep the identical object",
     "registry membership may change only as specified for detach / replace (C03's subject) and is not part of the frame",
 ]
+TYPECHECK_OK = True  # every generated value conforms to its annotation: some shards run with RUNTIME_TYPE_CHECK on
 MUST_SEE = ["equal_node_of_redefined_class_constructed", "one_byte_ids", "replace_with_child_field_changes", "membership_checked_around_detach_or_replace", "init_false_child_fields", "registry_membership_checked", "tagless_payload_read_while_alive", "origin_algebra_on_node_origins", "comparisons_with_equal_but_distinct_origin_objects", "compiled_xpath_reused", "mutable_container_in_property", "list_valued_tuple_fields", "hash_churn_rounds", "copy_protocol_ops", "digest_size_switches", "ops", "frames_checked", "raising_ops", "watched_writes_on_new_nodes", "setattr_rejected", "delattr_rejected", "repo_tests_contract_evaluations", "deserialize_registry_hits", "failing_replace_on_suffix_twin", "transform_returns_existing_node", "transform_rebuilds_equal_node"]
 CONFIG = {
     "quick": {"shards": 16, "histories": 30, "ops": 35, "watchdog_s": 600},
@@ -459,11 +460,12 @@ def histories(ctx, U, state, take_frame, diff_frame):
                 elif how == "ValueError":
                     n.replace(content_id="x")
                 else:
+                    was_tc = config.RUNTIME_TYPE_CHECK
                     config.RUNTIME_TYPE_CHECK = True
                     try:
                         n.replace(origin=5)
                     finally:
-                        config.RUNTIME_TYPE_CHECK = False
+                        config.RUNTIME_TYPE_CHECK = was_tc
             except (TypeError, ValueError, InvalidTypes):
                 ctx.count("raising_ops")
 
